@@ -49,3 +49,7 @@ Print Assumptions C17chg_never_above_max_ever_now.
 Print Assumptions C17chg_phase_change_now.
 Print Assumptions C17chg_alive_after_join_now.
 Print Assumptions C17chg_racy_lowering_now.
+
+(* Changer step 'set': set_max_threads is the store of the maximum followed by the wake-up loop over schedule_thread (whose spawning goes
+   through the spawn decision modelled by the Spawner actors) - it neither spawns by itself nor clamps the value *)
+Lemma cl_set_max_threads_stores_then_schedules : fact_set_max_threads_stores_then_schedules = true. Proof. reflexivity. Qed.
